@@ -232,6 +232,91 @@ fn reqseq(args: &[String]) {
     writeln!(out, "{}", json!({"shard_done": shard})).unwrap();
 }
 
+/// qsem --in <emitted ndjson> --out <ndjson> --family filter|group|sort [--shard i --of n] [--classes a,b] [--layouts a,b]
+/// work items = (table, class, layout) triples
+fn qsem(args: &[String]) {
+    use lvh::qsem;
+    let input = arg(args, "--in").expect("--in");
+    let output = arg(args, "--out").expect("--out");
+    let shard: usize = arg(args, "--shard").map(|s| s.parse().unwrap()).unwrap_or(0);
+    let of: usize = arg(args, "--of").map(|s| s.parse().unwrap()).unwrap_or(1);
+    let skip: usize = arg(args, "--skip").map(|s| s.parse().unwrap()).unwrap_or(0);
+    let classes: Vec<usize> = arg(args, "--classes").map(|s| s.split(',').map(|x| x.parse().unwrap()).collect()).unwrap_or_else(|| (0..qsem::NUM_CLASSES).collect());
+    let all_layouts = qsem::layouts();
+    let lays: Vec<usize> = arg(args, "--layouts").map(|s| s.split(',').map(|x| x.parse().unwrap()).collect()).unwrap_or_else(|| (0..all_layouts.len()).collect());
+    let mut queries: Option<Value> = None;
+    let mut tables: Vec<Value> = vec![];
+    for line in std::io::BufReader::new(std::fs::File::open(&input).expect("open input")).lines() {
+        let v: Value = serde_json::from_str(&line.unwrap()).expect("json");
+        if v["kind"] == "queries" {
+            queries = Some(v);
+        } else {
+            tables.push(v);
+        }
+    }
+    tables.sort_by_key(|t| t["idx"].as_i64().unwrap());
+    let q = queries.expect("queries line");
+    let family = q["family"].as_str().unwrap().to_string();
+    let mut out = std::fs::OpenOptions::new().create(true).append(true).open(&output).expect("open output");
+    let mut item = 0usize;
+    for t in &tables {
+        for &c in &classes {
+            for &l in &lays {
+                let i = item;
+                item += 1;
+                if i % of != shard || i < skip {
+                    continue;
+                }
+                writeln!(out, "{}", json!({"idx": i, "begin": true})).unwrap();
+                out.flush().unwrap();
+                let rows = t["rows"].as_array().unwrap();
+                let lay = &all_layouts[l];
+                lvh::util::take_panics();
+                let mut vio: Vec<Value> = vec![];
+                let (mut n, mut nt) = (0, 0);
+                match qsem::build(rows, c, lay) {
+                    Err(e) => vio.push(json!({"prop": "C01", "oracle": "build", "what": e})),
+                    Ok(b) => {
+                        // all queries of this database under one deadline; a hang is attributed to the query in flight
+                        let (qq, tt, fam, rowsv) = (q.clone(), t.clone(), family.clone(), rows.clone());
+                        let out = lvh::util::with_plain_deadline(std::time::Duration::from_secs(900), move || {
+                            let mut vio: Vec<Value> = vec![];
+                            let r = match &fam[..] {
+                                "filter" => qsem::check_filters(&b, c, qq["preds"].as_array().unwrap(), tt["filters"].as_array().unwrap(), tt["filters_dev_or"].as_array().unwrap(), rowsv.len(), &mut vio),
+                                "group" => qsem::check_groups(&b, c, qq["gqueries"].as_array().unwrap(), tt["groups"].as_array().unwrap(), &mut vio),
+                                _ => {
+                                    let lims: Vec<i64> = qq["limits"].as_array().unwrap().iter().map(|x| x.as_i64().unwrap()).collect();
+                                    let offs: Vec<i64> = qq["offsets"].as_array().unwrap().iter().map(|x| x.as_i64().unwrap()).collect();
+                                    qsem::check_sorts(&b, c, qq["squeries"].as_array().unwrap(), &lims, &offs, tt["sorts"].as_array().unwrap(), &rowsv, &mut vio)
+                                }
+                            };
+                            if !vio.is_empty() {
+                                std::mem::forget(b);
+                            }
+                            (r, vio)
+                        });
+                        match out {
+                            lvh::util::Outcome::Done((r, v)) => {
+                                n = r.0;
+                                nt = r.1;
+                                vio = v;
+                            }
+                            o => {
+                                let sql = qsem::CURRENT_SQL.lock().map(|s| s.clone()).unwrap_or_default();
+                                vio.push(json!({"prop": "C11", "oracle": "batch-deadline", "sql": sql, "what": format!("the batch of queries did not complete within its deadline: {}", o.describe())}));
+                            }
+                        }
+                    }
+                }
+                writeln!(out, "{}", json!({"idx": i, "table": t["idx"], "class": c, "layout": lay.name, "layout_idx": l, "queries": n, "nontrivial": nt,
+                    "violations": vio, "panics": lvh::util::take_panics()})).unwrap();
+                out.flush().unwrap();
+            }
+        }
+    }
+    writeln!(out, "{}", json!({"shard_done": shard})).unwrap();
+}
+
 fn main() {
     lvh::util::quiet_panics();
     let args: Vec<String> = std::env::args().collect();
@@ -242,6 +327,7 @@ fn main() {
         Some("record-hist") => record_hist(&args[2..]),
         Some("sched") => sched(&args[2..]),
         Some("reqseq") => reqseq(&args[2..]),
+        Some("qsem") => qsem(&args[2..]),
         Some("record-stress") => record_stress(&args[2..]),
         _ => {
             eprintln!("usage: lvh <replay-hist> ...");
